@@ -327,8 +327,44 @@ fn token_edits(text: &str, alphabet: &[&str], mut f: impl FnMut(String)) {
     }
 }
 
+/// definitions that refer to themselves or to each other: anything that walks them must terminate
+/// (run in the child process with the nesting family: unbounded recursion aborts)
+const CYCLES_OP: [&str; 12] = [
+    "fragment A on User { ...A }",
+    "fragment A on User { ...B } fragment B on User { ...A }",
+    "fragment A on User { friends { ...B } } fragment B on User { friends { ...C } } fragment C on User { ...A }",
+    "fragment A on User { ... on User { ...A } }",
+    "query { me { ...A } } fragment A on User { friends { ...A } }",
+    "query { me { ...Ok } } fragment Ok on User { id } fragment A on User { ...B } fragment B on User { ...A }",
+    "query { me { ...Ok } } fragment A on User { ...A ...Ok } fragment Ok on User { id }",
+    "fragment A on User { ...B } fragment B on User { id } fragment C on User { ...C }",
+    "query { me { ... { ...A } } } fragment A on User { ... @skip(if: true) { ...A } }",
+    "fragment A on Node { ... on User { ...B } } fragment B on Named { ... on User { ...A } }",
+    "query Q($v: UserFilter = {nested: {nested: {nested: {min: 1}}}}) { users(filter: $v) { id } }",
+    "fragment A on User { ...A ...A ...A }",
+];
+const CYCLES_SCHEMA: [&str; 10] = [
+    "type Query { a: Int } interface A implements B { x: Int } interface B implements A { x: Int }",
+    "type Query { a: Int } interface A implements A { x: Int }",
+    "type Query { a: U } union U = U",
+    "type Query { a: Int } input I { x: I! }",
+    "type Query { a: Int } input I { x: J! } input J { y: I! }",
+    "type Query { a: Int } input I { x: [I!]! = [{x: []}] }",
+    "type Query { a: Int } directive @a(x: Int @b) on ARGUMENT_DEFINITION directive @b(y: Int @a) on ARGUMENT_DEFINITION",
+    "type Query { a: Int } directive @a(x: I) on ARGUMENT_DEFINITION input I { f: Int @a }",
+    "type Query { q: Query! } extend type Query { r: [Query!]! }",
+    "type Query { a: A } type A implements N { n: N } interface N { n: N }",
+];
+
 fn nesting_family() -> Vec<(Via, String)> {
     let mut out = vec![];
+    for t in CYCLES_OP {
+        out.push((Via::Op, t.to_string()));
+        out.push((Via::Loader, t.to_string()));
+    }
+    for t in CYCLES_SCHEMA {
+        out.push((Via::Schema, t.to_string()));
+    }
     for d in 1..=64usize {
         let sel = format!("query {{ me {}{} }}", "{ friends ".repeat(d), "{ id }".to_string() + &" }".repeat(d));
         out.push((Via::Op, sel.clone()));
@@ -355,7 +391,15 @@ fn nesting_family() -> Vec<(Via, String)> {
     out
 }
 
-const HAZARDS: [&str; 22] = [
+const HAZARDS: [&str; 29] = [
+    // descriptions whose lines are indented with different kinds of white space (printed as JSDoc)
+    "\"\"\"\n    four spaces\n\u{3000}\u{3000}two ideographic spaces\n\"\"\" type Query { a: Int }",
+    "type Query {\n  \"\"\"\n\t\ttabs\n  \u{a0}\u{a0}nbsp after two spaces\n    \u{2003}em space\n  \"\"\"\n  a: Int\n}",
+    "\"\"\"\n\u{3000}\n \n\t\n\"\"\" type Query { a: Int }",
+    "type Query { \"\"\"\u{3000}x\n\u{a0}y\"\"\" a: Int @deprecated(reason: \"\"\"\n  \u{3000}r\n\u{3000}s\n\"\"\") }",
+    "\"\"\"\r  cr only\r    more\r\"\"\" type Query { a: Int }",
+    "enum E { \"\"\"\n   \u{feff}bom inside\n  x\n\"\"\" A } type Query { e: E }",
+    "\"\u{3000} single line \u{a0}\" type Query { a: Int }",
     "",
     "\u{FEFF}",
     "\0",
